@@ -94,3 +94,120 @@ SPECS['C11'] = {'runs': {'quick': [R('equals', 'h_equals.c', ['KE=1', 'SEGL=1', 
                                       R('equals-paths', 'h_equals.c', ['KE=3', 'SEGL=1', 'EFLAGS=(G_SCHEME_OPT|G_AUTH)'], 'two texts with <=3 segments', ['equal', 'different'], 2400),
                                       R('equals-hosts', 'h_equals.c', ['KE=0', 'SEGL=1', 'EFLAGS=(G_AUTH_REQ|G_USERINFO|G_PORT|G_HOSTKINDS)'], 'two authorities of every shape', ['equal', 'different'], 2400)]},
     'assumptions': COMMON_ASSUME, 'bounds': {'quick': 'pairs of small shapes', 'thorough': 'plus <=3 segments and all authority shapes'}, 'outside': 'transitivity is implied by the proved equivalence with text identity, not asserted on triples'}
+
+# ---------------------------------------------------------------- C07: every producing operation, shared checker chk_reparse_stable
+SPECS['C07'] = {'runs': {
+    'quick': [R('parse', 'h_parse.c', ['P_C07', 'NMAX=5'], 'parsed URIs, all texts of length 0..5', ['accepted'], 400),
+              R('parseIP', 'h_parse.c', ['P_C07', 'PREFIX="//["', 'NMAX=5'], 'parsed URIs with IP literals, "//[" + 0..5 chars', ['host-ip6'], 400),
+              R('resolve', 'h_resolve.c', ['P_C07', 'KB=2', 'KR=2', 'SEGL=2'] + RES_PATH, 'resolved URIs (paths config of C06)', RESCOV, 400),
+              R('resolve-mixed', 'h_resolve.c', ['P_C07'] + RES_CM, 'resolved URIs (mixed config of C06)', ['ref-has-scheme'], 600),
+              R('normalize', 'h_norm.c', ['P_C07'] + NORM_DOTS, 'normalised URIs (dots config of C08), masks {0, PATH, all, required}, borrowed and owned', ['owned-in-place', 'borrowed-copying'], 600),
+              R('shorten', 'h_shorten.c', ['P_C07'] + SHORT, 'created references (paths config of C10)', ['same-authority-relative'], 600),
+              R('make-owner', 'h_owner.c', ['P_C07', 'KO=1'], 'owned copies, every authority shape', ['host-ip4', 'host-ip6', 'host-ipfuture', 'host-regname', 'empty-host'], 600)],
+    'thorough': [R('parse', 'h_parse.c', ['P_C07', 'NMAX=6'], 'parsed URIs, length 0..6', ['accepted'], 2400),
+              R('resolve-3', 'h_resolve.c', ['P_C07', 'KB=2', 'KR=3', 'SEGL=2'] + RES_PATH, 'resolved URIs, references of <=3 segments', RESCOV, 2400),
+              R('resolve-colon', 'h_resolve.c', ['P_C07', 'KB=2', 'KR=2', 'SEGL=2', 'GEN_PATH_COLON'] + RES_PATH, 'resolved URIs, segments over [a-z.:]', RESCOV, 2400),
+              R('normalize', 'h_norm.c', ['P_C07'] + NORM_DOTS, 'normalised URIs', ['owned-in-place'], 2400),
+              R('shorten-3', 'h_shorten.c', ['P_C07', 'KS=3', 'KB=3', 'SEGL=1', 'GEN_PATH_COLON', 'SFLAGS=(G_SCHEME_REQ|G_AUTH)', 'BFLAGS=(G_SCHEME_REQ|G_AUTH)'], 'created references, <=3 segments over [a-z.:]', ['same-authority-relative'], 2400),
+              R('chain-resolve-normalize', 'h_normres.c', ['P_C07', 'KB=2', 'KR=2', 'SEGL=2', 'GEN_PATH_COLON'], 'two-step histories normalise->resolve->normalise and resolve->normalise', ['ref-relative-path'], 2400),
+              R('make-owner', 'h_owner.c', ['P_C07', 'KO=2'], 'owned copies', ['host-ip6'], 2400)]},
+    'assumptions': COMMON_ASSUME + ['histories: one operation after parsing (quick), plus the two-operation chains of h_normres (thorough); longer histories are not explored'],
+    'bounds': {'quick': 'bounds of the owning harnesses (C01/C06/C08/C10/C12 quick)', 'thorough': 'larger bounds and two-step chains'}, 'outside': 'histories longer than two operations; the inductive INV step of DESIGN 5/C07 was not built'}
+
+# ---------------------------------------------------------------- C12
+SPECS['C12'] = {'runs': {
+    'quick': [R('make-owner', 'h_owner.c', ['KO=1'], 'parse -> uriMakeOwner -> source text destroyed; every authority shape (user info, 4 host kinds, empty host, port), path<=1, query, fragment', ['host-ip4', 'host-ip6', 'host-ipfuture', 'host-regname', 'empty-host'], 600),
+              R('normalize-kill', 'h_norm.c', ['P_C12'] + NORM_CASE, 'parse -> normalise (non-zero masks) -> source text destroyed; all host kinds', ['source-killed', 'host-ipfuture', 'host-ip4', 'host-ip6'], 600),
+              R('normalize-kill-dots', 'h_norm.c', ['P_C12'] + NORM_DOTS, 'same with <=3 segment paths', ['source-killed'], 600),
+              R('readonly-inputs', 'h_c20.c', ['NMAX=3'], 'bases, sources, comparison/recomposition/mask-query operands and query lists marked read-only during every call of a mixed workload', ['mixed-workload'], 600)],
+    'thorough': [R('make-owner', 'h_owner.c', ['KO=2', 'SEGL=2'], 'as quick with <=2 segments of <=2 chars', ['host-ip6'], 2400),
+              R('normalize-kill', 'h_norm.c', ['P_C12'] + NORM_CASE, 'as quick', ['source-killed'], 1200),
+              R('normalize-kill-pct', 'h_norm.c', ['P_C12'] + NORM_PCT_T, 'with percent-encoded triplets in every component', ['source-killed'], 2400),
+              R('readonly-inputs', 'h_c20.c', ['NMAX=4'], 'as quick, texts <=4', ['mixed-workload'], 2400)]},
+    'assumptions': COMMON_ASSUME + ['"destroyed" = every later access to the source object is a violation in the executor (natively: the text is overwritten)', 'const URI arguments are read-only objects including segment nodes and IP data in every harness (ro_uri)'],
+    'bounds': {'quick': 'shapes of the owner/normalise harnesses', 'thorough': 'larger shapes'}, 'outside': 'operation sequences longer than parse + one operation'}
+
+# ---------------------------------------------------------------- C13 / C14
+SPECS['C13'] = {'runs': {
+    'quick': [R('incomplete', 'h_mm.c', ['INCOMPLETE'], 'every one or two of the five manager functions missing x all nine ...Mm entry points', ['incomplete-rejected'], 300),
+              R('default', 'h_mm.c', [], 'memory == NULL for all nine entry points on a fixed URI/query', ['default-manager'], 300),
+              R('parse', 'h_parse.c', ['P_C13', 'NMAX=5'], 'ledger balance and no libc allocator call for parse/free, texts 0..5', ['accepted'], 400),
+              R('resolve', 'h_resolve.c', ['P_C13'] + RES_CM, 'ledger balance for resolve (mixed config)', ['ref-has-scheme'], 600),
+              R('shorten', 'h_shorten.c', ['P_C13'] + SHORT, 'ledger balance for reference creation', ['schemes-differ'], 600),
+              R('normalize', 'h_norm.c', ['P_C13'] + NORM_DOTS, 'ledger balance for normalisation', ['owned-in-place', 'borrowed-copying'], 600),
+              R('make-owner', 'h_owner.c', ['KO=1'], 'ledger balance for make-owner', ['host-ip6'], 600),
+              R('query', 'h_query.c', ['MODE_DISSECT', 'NMAX=4'], 'ledger balance for dissect / free query list', ['several-items'], 300)],
+    'thorough': [R('incomplete', 'h_mm.c', ['INCOMPLETE'], 'as quick', ['incomplete-rejected'], 300), R('default', 'h_mm.c', [], 'as quick', ['default-manager'], 300),
+              R('parse', 'h_parse.c', ['P_C13', 'NMAX=6'], 'texts 0..6', ['accepted'], 2400), R('parseIP', 'h_parse.c', ['P_C13', 'PREFIX="//["', 'NMAX=6'], 'IP literals', ['host-ip6'], 2400),
+              R('resolve-3', 'h_resolve.c', ['P_C13', 'KB=2', 'KR=3', 'SEGL=2'] + RES_PATH, 'resolve, references of <=3 segments', RESCOV, 2400),
+              R('shorten', 'h_shorten.c', ['P_C13'] + SHORT, 'reference creation', ['schemes-differ'], 1200),
+              R('normalize-pct', 'h_norm.c', ['P_C13'] + NORM_PCT_T, 'normalisation with percent triplets', ['owned-in-place'], 2400),
+              R('make-owner', 'h_owner.c', ['KO=2'], 'make-owner', ['host-ip6'], 2400), R('query-rt', 'h_query.c', ['ITEMS=2', 'SEGL=1'], 'compose/dissect round trip', ['round-trip'], 2400)]},
+    'assumptions': COMMON_ASSUME + ['allocator attribution: blocks from the harness manager and from libc malloc are tagged in the executor ledger; releasing through the other one, an interior pointer or twice is a violation on any path'],
+    'bounds': {'quick': 'bounds of the owning harnesses', 'thorough': 'larger'}, 'outside': 'uriComposeQueryMalloc result freed by the caller is covered in h_mm/h_aw only'}
+FAILCOV = ['alloc-failure-injected']
+SPECS['C14'] = {'runs': {
+    'quick': [R('parse', 'h_parse.c', ['FAILING', 'NMAX=5'], 'every subset of failing allocations during parse, texts 0..5', FAILCOV, 600),
+              R('resolve', 'h_resolve.c', ['FAILING', 'KB=2', 'KR=2', 'SEGL=1', 'BFLAGS=(G_SCHEME_REQ|G_AUTH|G_HOSTKINDS)', 'RFLAGS=(G_AUTH|G_HOSTKINDS)'], 'every subset of failing allocations during resolve; all host kinds, <=2 segments each', FAILCOV, 600),
+              R('shorten', 'h_shorten.c', ['FAILING', 'KS=2', 'KB=2', 'SEGL=1', 'SFLAGS=(G_SCHEME_REQ|G_AUTH|G_HOSTKINDS)', 'BFLAGS=(G_SCHEME_REQ|G_AUTH)'], 'every subset of failing allocations during reference creation', FAILCOV, 600),
+              R('normalize', 'h_norm.c', ['FAILING', 'KN=2', 'SEGL=1', 'NFLAGS=(G_SCHEME_OPT|G_AUTH|G_QUERY|G_PCT)', 'MASKS=8,63'], 'every subset of failing allocations during normalisation (PATH and all), borrowed and owned', FAILCOV + ['alloc-failure-borrowed'], 900),
+              R('make-owner', 'h_owner.c', ['FAILING', 'KO=1', 'OFLAGS=(G_SCHEME_OPT|G_AUTH|G_HOSTKINDS|G_QUERY)'], 'every subset of failing allocations during make-owner', FAILCOV, 600),
+              R('dissect', 'h_query.c', ['MODE_DISSECT', 'FAILING', 'NMAX=4'], 'every subset of failing allocations during query dissection, texts 0..4', FAILCOV, 600)],
+    'thorough': [R('parse', 'h_parse.c', ['FAILING', 'NMAX=6'], 'texts 0..6', FAILCOV, 2400),
+              R('resolve', 'h_resolve.c', ['FAILING', 'KB=2', 'KR=3', 'SEGL=1', 'BFLAGS=(G_SCHEME_REQ|G_AUTH|G_HOSTKINDS)', 'RFLAGS=(G_AUTH|G_HOSTKINDS)'], 'references of <=3 segments', FAILCOV, 2400),
+              R('shorten', 'h_shorten.c', ['FAILING', 'KS=3', 'KB=3', 'SEGL=1', 'SFLAGS=(G_SCHEME_REQ|G_AUTH|G_HOSTKINDS)', 'BFLAGS=(G_SCHEME_REQ|G_AUTH)'], '<=3 segments', FAILCOV, 2400),
+              R('normalize', 'h_norm.c', ['FAILING', 'KN=2', 'SEGL=2', 'NFLAGS=(G_SCHEME_OPT|G_AUTH|G_QUERY|G_PCT)', 'MASKS=8,63'], '<=2 segments of <=2 tokens', FAILCOV, 2400),
+              R('normalize-hosts', 'h_norm.c', ['FAILING'] + NORM_CASE, 'all host kinds, single-bit masks', FAILCOV, 2400),
+              R('make-owner', 'h_owner.c', ['FAILING', 'KO=2'], 'all authority shapes, <=2 segments', FAILCOV, 2400),
+              R('dissect', 'h_query.c', ['MODE_DISSECT', 'FAILING', 'NMAX=6'], 'texts 0..6', FAILCOV, 2400)]},
+    'assumptions': COMMON_ASSUME + ['fault model: one symbolic boolean per allocation request made during the call under test (armed only around that call), i.e. every fail-once, fail-from-k-on and mixed pattern'],
+    'bounds': {'quick': 'see runs', 'thorough': 'see runs'}, 'outside': 'uriComposeQueryMalloc (single allocation; its failure is covered by the repository test) and longer inputs'}
+
+# ---------------------------------------------------------------- C15 .. C20
+SPECS['C15'] = {'runs': {
+    'quick': [R('history', 'h_memmgr.c', ['OPS=2'], 'every sequence of 2 operations (malloc/calloc/realloc/reallocarray/free) over 2 slots; malloc/realloc sizes arbitrary 64-bit; products from {0..3} x {0,1,2,3,2^63,SIZE_MAX,SIZE_MAX/3+1}; backend failure at any position; payload <= 2 bytes', ['two-allocations-two-releases', 'product-overflow', 'realloc-to-zero', 'realloc-failed-old-intact', 'realloc-grow-moved', 'realloc-shrink-in-place'], 600, opts={'solver_timeout_ms': 3000}),
+              R('product', 'h_memmgr.c', ['OPS=1', 'MODE_PRODUCT'], 'calloc/reallocarray with one factor in 0..3 and the other an arbitrary 64-bit value', ['product-overflow'], 900, opts={'solver_timeout_ms': 3000}),
+              R('selftest', 'h_memmgr.c', ['OPS=0', 'SELFTEST'], 'uriTestMemoryManager on the completed manager (concrete)', [], 300)],
+    'thorough': [R('history', 'h_memmgr.c', ['OPS=2'], 'as quick', ['two-allocations-two-releases'], 900, opts={'solver_timeout_ms': 3000}),
+              R('history-3', 'h_memmgr.c', ['OPS=3', 'TABN=2'], 'every sequence of 3 operations, product table {0, SIZE_MAX}', ['two-allocations-two-releases'], 2400, opts={'solver_timeout_ms': 3000}),
+              R('product', 'h_memmgr.c', ['OPS=1', 'MODE_PRODUCT'], 'as quick', ['product-overflow'], 1200, opts={'solver_timeout_ms': 3000})]},
+    'assumptions': COMMON_ASSUME + ['backend: logging malloc/free over the executor heap ledger (exact-pointer, once-only release is a built-in check), fails on a fresh symbolic boolean per request, refuses more than 8+CAP bytes'],
+    'bounds': {'quick': '2 operations, 2 slots, payload <= 2 bytes', 'thorough': '3 operations'}, 'outside': 'longer histories, payloads > 2 bytes, products of two arbitrary 64-bit factors (64-bit symbolic multiply/divide: no verdict from CBMC in 600 s nor from z3/cvc5 at useful speed)'}
+SPECS['C16'] = {'runs': {
+    'quick': [R('escape', 'h_escape.c', ['MODE_ESC', 'NMAX=3'], 'all char strings over 1..255 of length 0..3; both flags; explicit range and NUL-terminated; round trip through uriUnescapeInPlaceEx', ['normalize-breaks', 'space-to-plus', 'nul-terminated', 'explicit-range'], 600),
+              R('unescape', 'h_escape.c', ['NMAX=4'], 'all NUL-terminated char strings of length 0..4 (incl. truncated/malformed %); plus-to-space; all four break modes', ['decoded-something', 'nothing-decoded'], 600),
+              R('unescapeW', 'h_escape.c', ['WIDE', 'NMAX=3'], 'all wchar_t strings (32-bit values) of length 0..3', ['decoded-something'], 600)],
+    'thorough': [R('escape', 'h_escape.c', ['MODE_ESC', 'NMAX=4'], 'length 0..4', ['normalize-breaks'], 2400), R('escapeW', 'h_escape.c', ['MODE_ESC', 'WIDE', 'NMAX=3'], 'wide, length 0..3', ['normalize-breaks'], 2400),
+              R('unescape', 'h_escape.c', ['NMAX=6'], 'length 0..6', ['decoded-something'], 2400), R('unescapeW', 'h_escape.c', ['WIDE', 'NMAX=4'], 'wide, length 0..4', ['decoded-something'], 2400)]},
+    'assumptions': COMMON_ASSUME + ['oracle E: reference escaper/decoder (oracle/oracle_escape.h); output buffers are exact-size objects of 3n+1 / 6n+1 characters, the in-place buffer has exactly n+1'],
+    'bounds': {'quick': 'N<=3 escape, N<=4 unescape', 'thorough': 'N<=4 / N<=6'}, 'outside': 'longer strings'}
+SPECS['C17'] = {'runs': {
+    'quick': [R('roundtrip', 'h_query.c', ['ITEMS=2', 'SEGL=1'], 'lists of 1..2 items, keys/values of 0..1 chars over 1..255, value NULL or not; both compose flags; every int capacity <= required+2', ['round-trip', 'too-large'], 900),
+              R('dissect', 'h_query.c', ['MODE_DISSECT', 'NMAX=5'], 'all texts over 1..255 of length 0..5; plus-to-space; four break modes', ['several-items', 'no-items'], 600),
+              R('arith', 'h_query.c', ['MODE_ARITH', 'ITEMS=3'], 'size arithmetic for 3 items with strlen returning an arbitrary size_t (signed-overflow check on)', ['size-computed', 'size-refused'], 900, opts={'solver_timeout_ms': 3000})],
+    'thorough': [R('roundtrip', 'h_query.c', ['ITEMS=2', 'SEGL=2'], 'keys/values of 0..2 chars', ['round-trip'], 3000), R('roundtripW', 'h_query.c', ['WIDE', 'ITEMS=2', 'SEGL=1'], 'wide', ['round-trip'], 3000),
+              R('dissect', 'h_query.c', ['MODE_DISSECT', 'NMAX=7'], 'length 0..7', ['several-items'], 2400),
+              R('arith', 'h_query.c', ['MODE_ARITH', 'ITEMS=4'], '4 items', ['size-computed', 'size-refused'], 2400, opts={'solver_timeout_ms': 3000})]},
+    'assumptions': COMMON_ASSUME + ['arith run: strlen/wcslen stubbed by an arbitrary 64-bit value (list of stubs: strlen, wcslen); signed overflow of add/sub/mul nsw is a violation'],
+    'bounds': {'quick': '<=2 items of <=1 char; dissect N<=5; 3 items arithmetic', 'thorough': '<=2 chars, N<=7, 4 items'}, 'outside': 'longer lists and strings'}
+SPECS['C18'] = {'runs': {
+    'quick': [R('file', 'h_file.c', ['NMAX=4'], 'all Unix names and all backslash-only Windows names (drive-absolute, UNC with server, relative) over 1..255 of length 0..4; buffers of exactly the documented sizes', ['unix-absolute', 'unix-relative', 'win-drive', 'win-unc', 'win-relative'], 900),
+              R('short-forms', 'h_file.c', ['SHORTFORMS'], 'file:/x and file:c:/x (concrete)', ['short-forms'], 100)],
+    'thorough': [R('file', 'h_file.c', ['NMAX=5'], 'length 0..5', ['win-drive', 'win-unc'], 3000), R('fileW', 'h_file.c', ['WIDE', 'NMAX=4'], 'wide, code points 1..255, length 0..4', ['win-unc'], 3000),
+                 R('short-forms', 'h_file.c', ['SHORTFORMS'], 'concrete', ['short-forms'], 100)]},
+    'assumptions': COMMON_ASSUME + ['the produced URI string is fed to the real parser; one-before-the-object pointer formed in uriFilenameToUriString (lastSep = input - 1) is never dereferenced and is not a finding'],
+    'bounds': {'quick': 'N<=4', 'thorough': 'N<=5, W N<=4'}, 'outside': 'longer names'}
+def aw(mode, n, cov, budget=900): return R('aw-' + mode.lower(), 'h_aw.c', ['MODE_' + mode, 'NMAX=%d' % n], 'narrow text of 0..%d symbolic bytes 1..255, wide text = its widening; %s' % (n, mode.lower()), cov, budget)
+SPECS['C19'] = {'runs': {
+    'quick': [aw('PARSE', 4, ['accepted', 'rejected', 'make-owner', 'normalize']), aw('PAIR', 3, ['add-base', 'remove-base', 'pair-op-succeeded']), aw('ESC', 3, ['escape-unescape']), aw('QUERY', 3, ['dissect', 'compose']), aw('FILE', 3, ['filename'])],
+    'thorough': [aw('PARSE', 6, ['accepted'], 3000), aw('PAIR', 4, ['pair-op-succeeded'], 3000), aw('ESC', 4, ['escape-unescape'], 3000), aw('QUERY', 5, ['compose'], 3000), aw('FILE', 5, ['filename'], 3000)]},
+    'assumptions': COMMON_ASSUME + ['W output buffers are exact-size objects sized in characters; equality of results is asserted under the same path condition'],
+    'bounds': {'quick': 'N<=4 (parse, to-string, make-owner, normalise, mask), N<=3 per operand (resolve, create reference, equals), N<=3 (escape, query, filename)', 'thorough': 'N<=6 / 4 / 4 / 5 / 5'}, 'outside': 'longer inputs'}
+SPECS['C20'] = {'runs': {
+    'quick': [R('footprint', 'h_c20.c', ['NMAX=3'], 'mixed workload of 12 public calls; reference and other text of 0..3 symbolic chars; shared base/query list read-only; the other thread\'s objects read-only', ['mixed-workload'], 900, expect_writable_globals=['defaultMemoryManager']),
+              R('globals-parse', 'h_parse.c', ['P_C03', 'NMAX=4'], 'no store to any library global and no load from a writable one during parse', ['accepted'], 400, expect_writable_globals=['defaultMemoryManager'])],
+    'thorough': [R('footprint', 'h_c20.c', ['NMAX=4'], 'as quick, texts 0..4', ['mixed-workload'], 3000, expect_writable_globals=['defaultMemoryManager']),
+              R('globals-resolve', 'h_resolve.c', RES_CM, 'no store to library globals during resolve', ['ref-has-scheme'], 1200, expect_writable_globals=['defaultMemoryManager']),
+              R('globals-normalize', 'h_norm.c', NORM_DOTS, 'no store to library globals during normalise', ['owned-in-place'], 1200, expect_writable_globals=['defaultMemoryManager'])]},
+    'assumptions': COMMON_ASSUME + ['premises decided symbolically: (i) the only writable static object in the linked library IR is defaultMemoryManager and no path stores to a library global, (ii) no path stores to a read-only shared input, (iii) no path of one thread\'s calls stores to the other thread\'s objects; the interleaving quantifier follows by the footprint argument of DESIGN.md (not explored by the solver); allocator thread-safety is assumed'],
+    'bounds': {'quick': 'texts <=3', 'thorough': 'texts <=4'}, 'outside': 'the schedule quantifier itself; thread-safety of the memory manager behind the calls'}
